@@ -63,6 +63,8 @@ Inductive event :=
 | EEnter (t : nat) (s : option N) (stale : bool)
 | EAct (t : nat) (a : act)
 | EClosed (s : N)
+| EUnder (t : nat) (s : N)   (* the Close() just reported was caused by thread t while ANOTHER
+                               thread was inside its handler on the resumed session s *)
 | EResp (t : nat) (r : resp).
 
 Record input := { i_dttl : Z; i_progs : list prog; i_sched : list nat }.
@@ -178,7 +180,7 @@ Definition with_locks (st : state) (ls : list (N * nat)) : state :=
 Definition sys_done (st : state) (t : nat) (th : thr) (n : N) : state * list event :=
   (set_thr st t (set_ph th PhDone), [EResp t (RSys n)]).
 
-Definition step (dttl : Z) (ps : list prog) (st : state) (t : nat) : state * list event :=
+Definition step0 (dttl : Z) (ps : list prog) (st : state) (t : nat) : state * list event :=
   match nth_error ps t, nth_error (thrs st) t with
   | Some p, Some th =>
       match t_ph th, p with
@@ -247,6 +249,22 @@ Definition step (dttl : Z) (ps : list prog) (st : state) (t : nat) : state * lis
   | _, _ => (st, [])
   end.
 
+(* Is some thread other than t inside its handler on the resumed session s?  (The
+   scripted state counts the calls in flight on it; Close() reads that count.) *)
+Definition in_call_other (st : state) (t : nat) (s : N) : bool :=
+  existsb (fun p => negb (Nat.eqb (fst p) t) &&
+                    match t_ph (snd p) with PhRun (Some s') _ => s' =? s | _ => false end)
+          (combine (seq 0 (length (thrs st))) (thrs st)).
+
+Definition annotate (st : state) (t : nat) (evs : list event) : list event :=
+  flat_map (fun e => match e with
+                     | EClosed s => if in_call_other st t s then [e; EUnder t s] else [e]
+                     | _ => [e]
+                     end) evs.
+
+Definition step (dttl : Z) (ps : list prog) (st : state) (t : nat) : state * list event :=
+  let '(st', evs) := step0 dttl ps st t in (st', annotate st t evs).
+
 Fixpoint run (dttl : Z) (ps : list prog) (st : state) (sched : list nat) : state * list event :=
   match sched with
   | [] => (st, [])
@@ -289,6 +307,7 @@ Definition event_eqb (a b : event) : bool :=
   | EEnter t s x, EEnter u s' y => Nat.eqb t u && opt_eqb N.eqb s s' && Bool.eqb x y
   | EAct t x, EAct u y => Nat.eqb t u && act_eqb x y
   | EClosed s, EClosed s' => s =? s'
+  | EUnder t s, EUnder u s' => Nat.eqb t u && (s =? s')
   | EResp t x, EResp u y => Nat.eqb t u && resp_eqb x y
   | _, _ => false
   end.
@@ -399,6 +418,26 @@ Definition monI_step (dttl : Z) (ps : list prog) (m : monI) (e : event) : monI :
   | _ => m
   end.
 
+(* (X) teardown is serialized with calls: a DELETE /__session__ that reports a
+   hit (204) never ran the state's Close() while another request was inside its
+   handler on that session.  (A DELETE or request whose token resolution merely
+   evicts an EXPIRED entry answers 200 / session_lost; expiry, the reaper and
+   shutdown are not calls bearing the session and are not constrained here.) *)
+Record monX := { x_sus : list nat; x_ok : bool }.
+Definition monX0 : monX := {| x_sus := []; x_ok := true |}.
+Definition monX_step (ps : list prog) (m : monX) (e : event) : monX :=
+  match e with
+  | EUnder t _ =>
+      match nth_error ps t with
+      | Some (PDelete _ _ _) => {| x_sus := t :: x_sus m; x_ok := x_ok m |}
+      | _ => m
+      end
+  | EResp t r =>
+      {| x_sus := filter (fun u => negb (Nat.eqb u t)) (x_sus m);
+         x_ok := x_ok m && match r with RDel true => negb (memn t (x_sus m)) | _ => true end |}
+  | _ => m
+  end.
+
 Definition specL (i : input) (o : obs) : bool :=
   let m := fold_left monL_step (o_trace o) monL0 in
   l_ok m && (if forallb (fun t => memn t (l_done m)) (seq 0 (length (i_progs i)))
@@ -408,4 +447,39 @@ Definition specC (i : input) (o : obs) : bool :=
 Definition specI (i : input) (o : obs) : bool :=
   i_ok (fold_left (monI_step (i_dttl i) (i_progs i)) (o_trace o) monI0).
 
-Definition spec_ok (i : input) (o : obs) : bool := specL i o && specC i o && specI i o.
+Definition specX (i : input) (o : obs) : bool :=
+  x_ok (fold_left (monX_step (i_progs i)) (o_trace o) monX0).
+
+Definition spec_ok (i : input) (o : obs) : bool := specL i o && specC i o && specI i o && specX i o.
+
+(* ---- the swapped teardown order (refutation variant) --------------------- *)
+(* handleStickyDelete running registry.close BEFORE entry.lock.Lock():
+   [resolve] [registry.close] [Lock] [Unlock; response].  Phases are reused:
+   for a delete, PhDel s false here means closed-and-waiting-for-the-lock. *)
+Definition step0_sw (dttl : Z) (ps : list prog) (st : state) (t : nat) : state * list event :=
+  match nth_error ps t, nth_error (thrs st) t with
+  | Some (PDelete w _ _), Some th =>
+      match t_ph th with
+      | PhWait s =>
+          let '(st1, hit) := reg_close st w s in
+          (set_thr st1 t (set_ph th (PhDel s false)), if hit then [EClosed s] else [])
+      | PhDel s false =>
+          match lock_of s (locks st) with
+          | Some _ => (st, [])
+          | None => (set_thr (with_locks st ((s, t) :: locks st)) t (set_ph th (PhDel s true)), [])
+          end
+      | _ => step0 dttl ps st t
+      end
+  | _, _ => step0 dttl ps st t
+  end.
+Fixpoint run_sw (dttl : Z) (ps : list prog) (st : state) (sched : list nat) : state * list event :=
+  match sched with
+  | [] => (st, [])
+  | t :: r =>
+      let '(st1, e1) := step0_sw dttl ps st t in
+      let '(st2, e2) := run_sw dttl ps st1 r in
+      (st2, annotate st t e1 ++ e2)
+  end.
+Definition model_sw (i : input) : obs :=
+  let '(st, tr) := run_sw (i_dttl i) (i_progs i) (init (i_progs i)) (i_sched i) in
+  {| o_trace := tr; o_locked := map fst (locks st) |}.
